@@ -2,14 +2,17 @@
 package c16
 
 import (
+	"time"
+
 	"verif/engine/build"
+	"verif/engine/gose"
 	"verif/engine/props/core"
 	"verif/engine/props/goh"
 )
 
 func Run(r *core.Report, env *build.Env) {
 	r.Level = "model_checking"
-	s := &goh.Suite{R: r, Env: env, Patterns: []string{"./src/ast", "./src/parser/typechecker", "./src/parser/resolver", "./src/ddptypes"}, Files: map[string]string{
+	s := &goh.Suite{R: r, Env: env, Patterns: []string{"./src/ast", "./src/parser/typechecker", "./src/parser/resolver", "./src/ddptypes", "./src/parser"}, Files: map[string]string{
 		"src/ast/zz_verif_c16.go":                "ast/zz_verif_c16.go",
 		"src/parser/typechecker/zz_verif_c16.go": "typechecker/zz_verif_c16.go",
 		"src/parser/typechecker/zz_verif_c14.go": "typechecker/zz_verif_c14.go",
@@ -17,6 +20,7 @@ func Run(r *core.Report, env *build.Env) {
 		"src/parser/typechecker/zz_verif_c07.go": "typechecker/zz_verif_c07.go",
 		"src/parser/resolver/zz_verif_c16.go":    "resolver/zz_verif_c16.go",
 		"src/parser/resolver/zz_verif_c04.go":    "resolver/zz_verif_c04.go",
+		"src/parser/zz_verif_c16.go":             "parser/zz_verif_c16.go",
 	}}
 	if !s.Load() {
 		return
@@ -33,6 +37,7 @@ func Run(r *core.Report, env *build.Env) {
 		{Pkg: "src/parser/typechecker", Func: "VerifC16StructArgs", Bound: "a Kombination literal with 3 fields, each argument well- or ill-typed: diagnostics of 2 runs over all map orders"},
 		{Pkg: "src/parser/resolver", Func: "VerifC16ResolveArgs", Bound: "a call / Kombination literal with 3 arguments, each naming a declared or an undeclared variable: diagnostics of 2 runs over all map orders"},
 	}
+	hs = append(hs, goh.Harness{Pkg: "src/parser", Func: "VerifC16Frontend", Bound: "whole frontend twice on programs with 3 forward declarations (each defined or not) and one of 4 further fault groups; every map range in the frontend under its own symbolic order", Opts: gose.Options{StopAfter: 1, MaxPaths: 60000, Deadline: 15 * time.Minute}})
 	if r.Tier == "thorough" {
 		hs = append(hs, goh.Harness{Pkg: "src/ast", Func: "VerifC16Decls4", Bound: "4 public declarations at symbolic positions, all map orders x 2 runs"})
 	}
